@@ -87,6 +87,12 @@ Theorem C16_cascade_partial : forall f s k p pid,
 Proof. exact step_cascade_freeze. Qed.
 Print Assumptions C16_cascade_partial.
 
+(** ... and already the submission of an appchain logout pauses every registered service *)
+Theorem C16_cascade_logout_submit_partial : forall c s s',
+  run (chain_op Ev_Logout c) None s = (true, s') -> forall i, In i (reg_of c s) -> unav s' i.
+Proof. exact cascade_logout_submit. Qed.
+Print Assumptions C16_cascade_logout_submit_partial.
+
 (** the predicate the judge evaluates on implementation traces *)
 Theorem C16_P_b_spec : forall h tr, P_b h tr = true <-> P_from h obs0 tr.
 Proof. exact P_b_spec. Qed.
